@@ -116,7 +116,10 @@ def r04_3(run):
     public = {"graph.base.tensor", "node.tensor", "self"}
     for c in mirrors:
         t, s = kw(c, "target"), kw(c, "source")
-        ok = t is not None and s is not None and norm(t) in public
+        # `<node>.tensor` for the loop variable that walks the placeholder graph, whatever it is called
+        loop_vars = {lp.target.id for lp in own_nodes(ip.node) if isinstance(lp, ast.For) and isinstance(lp.target, ast.Name) and "graph" in norm(lp.iter)}
+        pub_ok = t is not None and (norm(t) in public or (isinstance(t, ast.Attribute) and t.attr == "tensor" and isinstance(t.value, ast.Name) and t.value.id in loop_vars))
+        ok = t is not None and s is not None and pub_ok
         srcdef = None
         if ok:
             if isinstance(s, ast.Name):
